@@ -340,7 +340,7 @@ def hist_one(agg, kind, keys, idx, new, path, rev):
 
 
 def check(ctx):
-    N = ctx.pick(4, 5)
+    N = ctx.pick(5, 6)
     units = []
     for kind in ALPHA:
         for n in range(0, N + 1):
